@@ -266,7 +266,10 @@ def read_cgsmiles(pattern):
         # if the branch ends we reset the anchor
         # and set branching False unless we are in
         # a nested branch
-        if stop <= len(pattern) and branch_stop:
+        next_node = _find_next_character(pattern, ['['], stop)
+        eon_a = _find_next_character(pattern, [')'], stop)
+        # one pass per branch closure that comes before the next node
+        while eon_a < next_node:
             branching = False
             prev_node = branch_anchor.pop()
             if branch_anchor:
@@ -277,7 +280,6 @@ def read_cgsmiles(pattern):
             # We need to know how often the branch has
             # to be added so we first identify the branch
             # terminal character ')' called eon_a.
-            eon_a = _find_next_character(pattern, [')'], stop)
             # Then we check if the expansion character
             # is next.
             if (eon_a+1 < len(pattern) and pattern[eon_a+1] == "|") or\
@@ -338,6 +340,7 @@ def read_cgsmiles(pattern):
             # when all nested branches are completed
             if len(branch_anchor) == 0:
                 recipes = defaultdict(list)
+            eon_a = _find_next_character(pattern, [')'], eon_a+1)
 
     # raise some errors for strange stuff
     if cycle:
